@@ -232,6 +232,7 @@ func cmdVerify(args []string) int {
 	out := fs.String("out", "/verif/out/tmp", "output directory for VCs")
 	jsonOut := fs.String("json", "", "write result JSON here")
 	timeout := fs.Int("timeout", 10, "per-VC solver timeout (s)")
+	coverTimeout := fs.Int("cover-timeout", 0, "solver timeout for cover (vacuity) queries (s); 0 = same as -timeout")
 	workers := fs.Int("workers", 6, "parallel VCs")
 	assumed := fs.String("assumed", "/verif/contracts/assumed", "assumed contracts dir")
 	overlayF := fs.String("overlay", "", "JSON file {path: replacement path} applied to the load (self-test mutants)")
@@ -395,7 +396,11 @@ func cmdVerify(args []string) int {
 	rr.GenS = time.Since(t1).Seconds()
 	t2 := time.Now()
 	for _, pd := range pend {
-		res := solveAll(pd.files, pd.x.obls, *timeout, *workers)
+		ct := *coverTimeout
+		if ct <= 0 {
+			ct = *timeout
+		}
+		res := solveAll(pd.files, pd.x.obls, *timeout, ct, *workers)
 		for i, o := range pd.x.obls {
 			r := res[i]
 			or := &OblResult{Name: o.Name, Kind: o.Kind, Label: o.Label, Pos: o.Pos, Solver: r.solver, Seconds: r.seconds, File: pd.files[i], Cover: o.Cover}
